@@ -550,6 +550,10 @@ void kv_hsplit(struct aln_mem* m, int old_cor[], int meet, int transition, int s
         kb_kint(&b, "meet", meet);
         kb_kint(&b, "tr", transition);
         kb_kint(&b, "serial", serial);
+        /* the meetup's score in units of 1/2000 (the tie-break term is a multiple of it); only while float32 still resolves it */
+        if(m->kv_score > -4000.0f && m->kv_score < 4000.0f){
+                kb_kint(&b, "sc", lrintf(m->kv_score * 2000.0f));
+        }
         kv_write("HSplit", &b);
 }
 
